@@ -27,6 +27,9 @@ RULE = (
     "(different widths and heights, scales 1e-2..1e6, offsets up to 1e3 extents), shapes incl. 1xn, nx1, non-square, spacings dividing the "
     "extent or not, both adjust modes and registrations, 0..2 extra coordinates, explicit 1-D and 2-D coordinates (non-uniform), custom dims / "
     "data names / class-level defaults, anisotropic sheared affine and monotone nonlinear projections, default region from the fitted data; "
+    "every argument in equivalent spellings (region / shape / spacing / extra_coords / profile points as tuple, list, ndarray of ints or "
+    "floats, Python and numpy scalars incl. extra_coords exactly 0 / 0.0; sizes and seeds as int / np.int64 / RandomState; names as bare "
+    "string, list, tuple; projections as callable object, plain function, functools.partial); "
     "plus call histories on ONE gridder object (18 interleaved grid/profile/scatter calls in which dims, data_names, projection, region, "
     "extra_coords and coordinates= are given in one call and omitted in the next, both registrations and adjust modes, refits on data with "
     "another bounding box, explicit coordinate arrays edited in place between calls, every returned array overwritten before the next / an "
@@ -57,6 +60,13 @@ _QUICK_FLOORS = {
     "class:grid_non_square": 1000, "class:grid_single_row_or_column": 180, "class:default_region_from_fitted_data": 600,
     "class:grid_components=2": 300, "class:grid_components=3": 300, "class:grid_gridder=Spline": 28, "class:grid_gridder=Chain": 64,
     "class:grid_gridder=Vector": 56, "class:grid_gridder=KNeighbors": 28, "class:grid_gridder=Trend": 28, "class:grid_gridder=CheckerBoard": 32,
+    # equivalent spellings of the same argument
+    "spelling:grid_extra_coords_exactly_zero": 80, "spelling:profile_extra_coords_exactly_zero": 30, "spelling:scatter_extra_coords_exactly_zero": 25,
+    "spelling:grid_region=ndarray_float": 190, "spelling:grid_region=ndarray_int": 6, "spelling:grid_shape=ndarray_int": 160,
+    "spelling:grid_spacing=ndarray_float": 140, "spelling:grid_spacing=np_float": 90, "spelling:grid_extra_coords=ndarray_float": 60,
+    "spelling:grid_projection=partial": 190, "spelling:grid_projection=function": 190, "spelling:profile_projection=partial": 70,
+    "spelling:profile_size=np_int": 260, "spelling:profile_point=ndarray_float": 130, "spelling:scatter_random_state=np_int": 110,
+    "spelling:scatter_random_state=RandomState": 110, "spelling:scatter_size=np_int": 250,
     # call histories on one gridder object
     "eval:defaults_unchanged": 2600, "class:history_dims_given_then_omitted": 100, "class:history_data_names_given_then_omitted": 100,
     "class:history_projection_given_then_omitted": 95, "class:history_region_given_then_omitted": 50,
@@ -254,6 +264,20 @@ def install(tap, run):
                           key="defaults:changed-by-" + kind)
         return reference
 
+    def count_spellings(kind, **arguments):
+        """How the caller spelled each argument (tuple / list / ndarray / Python or numpy scalar / ...)."""
+        for name, value in arguments.items():
+            if value is None:
+                continue
+            if name == "projection":
+                run.count("spelling:%s_projection=%s" % (kind, G.projection_spelling(value)))
+                continue
+            run.count("spelling:%s_%s=%s" % (kind, name, G.spelling_of(value)))
+            if name == "extra_coords" and np.ndim(value) == 0 and float(value) == 0.0:
+                run.count("spelling:%s_extra_coords_exactly_zero" % kind)
+            if name in ("dims", "data_names") and not isinstance(value, str) and len(value) == 1:
+                run.count("spelling:%s_%s_single_name_in_sequence" % (kind, name))
+
     def count_common(kind, gridder, defaults, projection, dims, data_names, n_components, n_extra):
         run.count("class:%s_gridder=%s" % (kind, type(gridder).__name__))
         run.count("class:%s_components=%d" % (kind, n_components))
@@ -419,6 +443,9 @@ def install(tap, run):
                             problems.append("variable %r does not carry the gridder's description as metadata" % (name,))
                             break
         run.evaluated("grid")
+        if given is None:
+            count_spellings("grid", region=a["region"], shape=a["shape"], spacing=a["spacing"], extra_coords=kwargs.get("extra_coords"))
+        count_spellings("grid", dims=a["dims"], data_names=a["data_names"], projection=projection)
         count_common("grid", gridder, defaults, projection, a["dims"], a["data_names"], n_components, len(extras_expected))
         if not problems:
             if nn == 1 or ne == 1:
@@ -542,6 +569,8 @@ def install(tap, run):
                         if not bool(np.all(table[name].to_numpy() == value)):
                             problems.append("extra coordinate column %r is not the constant %r" % (name, value))
         run.evaluated("profile")
+        count_spellings("profile", size=a["size"], point=a["point1"], extra_coords=kwargs.get("extra_coords"), dims=a["dims"],
+                        data_names=a["data_names"], projection=projection)
         count_common("profile", gridder, defaults, projection, a["dims"], a["data_names"], n_components, len(extras))
         if size >= 2 and sep > 0 and q1[0] != q2[0] and q1[1] != q2[1]:
             run.mark_nontrivial("profile", describe(gridder), p1, p2, size, dims, a["data_names"], witness["projection"])
@@ -646,6 +675,8 @@ def install(tap, run):
                         if not bool(np.all(table[name].to_numpy() == value)):
                             problems.append("extra coordinate column %r is not the constant %r" % (name, value))
         run.evaluated(monitor)
+        count_spellings("scatter", region=a["region"], size=a["size"], random_state=a["random_state"], extra_coords=kwargs.get("extra_coords"),
+                        dims=a["dims"], data_names=a["data_names"], projection=projection)
         count_common("scatter", gridder, defaults, projection, a["dims"], a["data_names"], n_components, len(extras))
         if size >= 2:
             run.mark_nontrivial("scatter", describe(gridder), [w, e, s, n], size, witness["random_state"], dims, a["data_names"],
@@ -699,7 +730,8 @@ def run_case(run, tap, stream, index, rng):
 
 def _stream_analytic_grid(run, rng):
     """Regular grids from region + shape|spacing, with and without a projection; default region from the 'fitted' data."""
-    region, scale = G.gen_region(rng)
+    integral = bool(rng.random() < 0.2)  # integral bounds, so that region / spacing can also be spelled with integers
+    region, scale = G.gen_int_region(rng) if integral else G.gen_region(rng)
     gridder, n_comp = new_analytic(rng, scale)
     # "fit" on points whose bounding box is the default region
     w, e, s, n = region
@@ -718,7 +750,12 @@ def _stream_analytic_grid(run, rng):
                 kwargs["region"] = tuple(kwargs["region"])
         if rng.random() < 0.4:
             kwargs["projection"] = G.gen_projection(rng, kwargs.get("region", region))
-        grid = gridder.grid(**kwargs)
+        if integral:
+            if "region" in kwargs:
+                kwargs["region"] = [w + 1.0, e + 3.0, s - 2.0, n + 1.0]
+            if "spacing" in kwargs:
+                kwargs["spacing"] = G.gen_int_spacing(rng, kwargs.get("region", region))
+        grid = gridder.grid(**G.spell_call(rng, kwargs))
     run.sample("analytic_grid", {"constants": [list(c) for c in gridder.consts], "class": type(gridder).__name__, "default_region": list(region),
                                  "last_call": {k: (v.describe() if hasattr(v, "describe") else v) for k, v in kwargs.items()},
                                  "result_dims": {str(k): int(v) for k, v in grid.sizes.items()},
@@ -761,7 +798,7 @@ def _stream_analytic_coords(run, rng):
         kwargs = G.gen_names(rng, n_comp)
         if rng.random() < 0.35:
             kwargs["projection"] = G.gen_projection(rng, region)
-        grid = gridder.grid(coordinates=coordinates, **kwargs)
+        grid = gridder.grid(coordinates=coordinates, **G.spell_call(rng, kwargs))
     run.sample("analytic_explicit_coordinates", {"constants": [list(c) for c in gridder.consts], "easting": e_vec, "northing": n_vec,
                                                  "two_d": np.ndim(coordinates[0]) == 2, "n_extra": len(extras),
                                                  "first_variable": grid[list(grid.data_vars)[0]].values})
@@ -795,9 +832,8 @@ def _stream_analytic_profile(run, rng):
             kwargs["extra_coords"] = float(np.round(rng.normal() * 10, 2))
         elif roll < 0.3:
             kwargs["extra_coords"] = [float(np.round(v * 10, 2)) for v in rng.normal(size=2)]
-        if rng.random() < 0.3:
-            p1, p2 = list(p1), list(p2)
-        table = gridder.profile(p1, p2, size, **kwargs)
+        p1, p2 = G.spell_point(rng, p1), G.spell_point(rng, p2)
+        table = gridder.profile(p1, p2, G.spell_count(rng, size), **G.spell_call(rng, kwargs))
     run.sample("analytic_profile", {"constants": [list(c) for c in gridder.consts], "point1": p1, "point2": p2, "size": size,
                                     "call": {k: (v.describe() if hasattr(v, "describe") else v) for k, v in kwargs.items()},
                                     "table_head": table.head(3)})
@@ -824,7 +860,9 @@ def _stream_analytic_scatter(run, rng):
             kwargs["extra_coords"] = float(np.round(rng.normal() * 10, 2))
         elif roll < 0.3:
             kwargs["extra_coords"] = [1.5, -2.25]
-        first = gridder.scatter(random_state=seed, **kwargs)
+        G.spell_call(rng, kwargs)
+        kwargs["size"] = G.spell_count(rng, kwargs["size"])
+        first = gridder.scatter(random_state=G.spell_seed(rng, seed), **kwargs)
         if rng.random() < 0.3:
             again = gridder.scatter(random_state=np.random.RandomState(seed), **kwargs)
             run.count("class:scatter_random_state_object")
@@ -893,7 +931,7 @@ def _stream_real(run, rng, vd, kind):
             # an affine map that keeps the points near the data (so predictions stay finite and well scaled)
             kwargs["projection"] = G.Affine(1.0, float(rng.uniform(-0.3, 0.3)), float(rng.uniform(-0.3, 0.3)), float(rng.uniform(0.6, 1.4)),
                                             0.05 * (e - w), -0.05 * (n - s))
-        grid = gridder.grid(**kwargs)
+        grid = gridder.grid(**G.spell_call(rng, kwargs))
     for _ in range(2):
         nn, ne = G.gen_shape(rng)
         nn, ne = min(nn, 10), min(ne, 10)
@@ -906,7 +944,7 @@ def _stream_real(run, rng, vd, kind):
         if rng.random() < 0.4:
             kwargs["projection"] = G.Affine(1.0, float(rng.uniform(-0.3, 0.3)), float(rng.uniform(-0.3, 0.3)), float(rng.uniform(0.6, 1.4)),
                                             0.05 * (e - w), -0.05 * (n - s))
-        gridder.profile(p1, p2, int(rng.choice([2, 5, 12, 30])), **kwargs)
+        gridder.profile(G.spell_point(rng, p1), G.spell_point(rng, p2), G.spell_count(rng, rng.choice([2, 5, 12, 30])), **G.spell_call(rng, kwargs))
     for _ in range(3):
         kwargs = G.gen_names(rng, n_comp)
         if rng.random() < 0.5:
@@ -914,7 +952,7 @@ def _stream_real(run, rng, vd, kind):
         if rng.random() < 0.3:
             kwargs["projection"] = G.Affine(1.0, 0.2, -0.1, 0.9, 0.0, 0.0)
         seed = int(rng.integers(0, 2 ** 31 - 1))
-        first = gridder.scatter(size=int(rng.choice([2, 9, 40])), random_state=seed, **kwargs)
+        first = gridder.scatter(size=G.spell_count(rng, rng.choice([2, 9, 40])), random_state=G.spell_seed(rng, seed), **G.spell_call(rng, kwargs))
         again = gridder.scatter(size=len(first), random_state=seed, **kwargs)
         run.evaluated("scatter_reproducible")
         if not all(_same(first[c].to_numpy(), again[c].to_numpy()) for c in first.columns):
@@ -1096,19 +1134,23 @@ def _stream_history(run, rng, vd, kind):
             if last_mode is not None and last_mode.endswith("pixel") and not mode.endswith("pixel") and not mode.startswith("coordinates"):
                 run.count("class:history_grid_pixel_register_then_default")
             last_mode = mode
+            G.spell_call(rng, kwargs)
             call = lambda: gridder.grid(**kwargs)  # noqa: E731
         elif method == "profile":
             p1, p2 = gen_profile_points(rng, region)
             if given["extra_coords"]:
                 kwargs["extra_coords"] = 7.5
-            size = int(rng.choice([2, 6, 15]))
+            size = G.spell_count(rng, rng.choice([1, 2, 6, 15]))
+            p1, p2 = G.spell_point(rng, p1), G.spell_point(rng, p2)
+            G.spell_call(rng, kwargs)
             call = lambda: gridder.profile(p1, p2, size, **kwargs)  # noqa: E731
         else:
             if given["region"]:
                 kwargs["region"] = sub
             if given["extra_coords"]:
                 kwargs["extra_coords"] = [1.5, -2.25]
-            size, seed = int(rng.choice([3, 12, 40])), int(rng.integers(0, 2 ** 31 - 1))
+            size, seed = G.spell_count(rng, rng.choice([3, 12, 40])), G.spell_count(rng, rng.integers(0, 2 ** 31 - 1))
+            G.spell_call(rng, kwargs)
             call = lambda: gridder.scatter(size=size, random_state=seed, **kwargs)  # noqa: E731
         result = call()
         if rng.random() < 0.3:
